@@ -105,7 +105,30 @@ def cnet_family(ctx):
                sample=dict(op=cases[0][0], argws=cases[0][2], dw=cases[0][3]))
 
 
+def fastsim_emitters(ctx):
+    """P: per-op emission of FastSimulation (real templates + real mask-elision table) vs the
+    documented value, all widths and values."""
+    from contracts import fastsim
+    from pyvc import engine as E
+    from pyvc import run as prun
+    fn = 'pyrtl.simulation.FastSimulation._compiled'
+    vcs = []
+    for op in fastsim.all_ops():
+        try:
+            vcs += fastsim.vcs_for_op(op)
+        except E.Unsupported as e:
+            ctx.obligation('FastSimulation._compiled.simple_func[%s]:symbolic-execution' % op, fn, 'undecided',
+                           'pyvc', 0.0, detail='unsupported construct: %s' % e)
+    prun.run_vcs(ctx, fn, vcs, E.source_hash('pyrtl.simulation', 'FastSimulation._compiled'),
+                 key='FastSimulation._compiled.simple_func')
+    ctx.assume('FastSimulation emitters: the text produced by the real simple_func templates is parsed with '
+               'ast and evaluated over mathematical integers (CPython semantics of & | ^ ~ + - * < > == int() '
+               'and the conditional expression); operand names are placeholders; c / s / m / @ emission and '
+               'the surrounding program text: bounded families')
+
+
 def run(ctx):
+    fastsim_emitters(ctx)
     cnet_family(ctx)
     base = designs.family(ctx.tier, ctx.seed)
     wide = designs.wide_family(ctx.tier)
@@ -123,6 +146,8 @@ def run(ctx):
                        fn, reps=2, extra=dict(pre=pre))
     ctx.assume('reference = spec/cycle.py (documented semantics); gcc and the host CPU for CompiledSimulation')
     ctx.assume('sanctioned difference: non-zero default_value is not applied to memories by CompiledSimulation (default_value=0 used)')
-    return ctx.finish('other', './check C02', ['spec/cycle.py', 'gcc'],
-                      'bounded (level B): both code generators are run on the design family with '
+    return ctx.finish('other', './check C02', ['z3', 'pyvc', 'spec/cycle.py', 'gcc'],
+                      'P: FastSimulation per-op expression templates + mask elision equal the documented value '
+                      'for all widths/values; PB: translation validation of every emitted C op at limb-crossing '
+                      'widths; bounded (level B): both code generators are run on the design family with '
                       'limb-crossing widths and compared per cycle/wire with the reference semantics')
